@@ -519,10 +519,7 @@ theorem model_holds (g : Registry) (op : Op) (hw : RegWF g) :
           rw [hnil] at this; cases this
         simp only [hne, Bool.false_eq_true, if_false, List.any_eq_true]
         refine ⟨k, List.mem_filter.mpr ⟨hkm, hkp⟩, ?_⟩
-        simp only [Bool.and_eq_true, List.all_eq_true, h2, beq_self_eq_true, and_true]
-        intro k' hk'
-        rw [List.mem_filter] at hk'
-        exact hleast k' hk'.1 hk'.2
+        simp only [h2, beq_self_eq_true]
 
 /-- "unknown … reactions are refused without changing the profile", and so is a kind registered twice -/
 theorem register_refused_unchanged (g : Registry) (k r : String) (cb : Nat)
@@ -592,4 +589,212 @@ example : RegWF (run [] demoOps).1 := reachable_wf demoOps
 /-- two kinds fire; visited in sorted order, "obsdup" decides although "sampdup" was registered first -/
 example : testLoop [⟨"sampdup", "raise", 0⟩, ⟨"empty", "ignore", 0⟩, ⟨"obsdup", "call", 3⟩] ["sampdup", "obsdup"]
     ["empty", "obsdup", "sampdup"] = .ev (.called "obsdup" 3) := by decide
+end Biom.C20.Reg
+
+/-! ### the two levels of the model are one: the program-level `check` / `seterr` are the registry-level `test` /
+`state =`, and the registry err.py builds at import time meets the hypotheses of the program-level theorems -/
+namespace Biom.C20.Reg
+theorem kinds_toState (g : Registry) : kinds (toState g) = (rkinds g).mergeSort leStr := by
+  simp [kinds, toState, List.map_map, Function.comp_def]
+
+theorem lookup_map_self (ks : List Kind) (f : Kind → String) (k : Kind) (hk : k ∈ ks) :
+    (ks.map (fun k => (k, f k))).lookup k = some (f k) := by
+  induction ks with
+  | nil => cases hk
+  | cons x xs ih =>
+    simp only [List.map_cons, List.lookup_cons]
+    by_cases hx : k = x
+    · subst hx; simp
+    · have : (k == x) = false := by simpa using hx
+      rw [this]
+      rcases List.mem_cons.mp hk with h | h
+      · exact absurd h hx
+      · exact ih h
+
+theorem lookup_callsOf (g : Registry) (k : Kind) :
+    ((callsOf g).lookup k).getD 0 = ((find g k).map (·.cb)).getD 0 := by
+  unfold callsOf find
+  induction g with
+  | nil => rfl
+  | cons x xs ih =>
+    simp only [List.map_cons, List.lookup_cons, List.find?_cons]
+    by_cases hx : k = x.kind
+    · subst hx; simp
+    · have h1 : (k == x.kind) = false := by simpa using hx
+      have h2 : (x.kind == k) = false := by simpa using (fun h => hx h.symm)
+      rw [h1, h2]; exact ih
+
+/-- the loop of `test` over any registered candidates = "first firing candidate decides" -/
+theorem testLoop_eq_find (g : Registry) (trig ks : List Kind) (hreg : ∀ k ∈ ks, k ∈ rkinds g) :
+    testLoop g trig ks = .ev (match ks.find? (fun k => trig.contains k) with
+      | none => .quiet
+      | some k => reactionEv k (((find g k).map (·.reaction)).getD "ignore") (((find g k).map (·.cb)).getD 0)) := by
+  induction ks with
+  | nil => rfl
+  | cons c cs ih =>
+    have hc : c ∈ rkinds g := hreg c List.mem_cons_self
+    have ih' := ih (fun k hk => hreg k (List.mem_cons_of_mem _ hk))
+    cases hf : find g c with
+    | none => exact absurd hc (find_none.mp hf)
+    | some e =>
+      by_cases ht : trig.contains c = true
+      · simp only [testLoop, hf, ht, if_true, List.find?_cons, Option.map_some, Option.getD_some]
+      · have ht' : trig.contains c = false := by simpa using ht
+        simp only [testLoop, hf, ht', List.find?_cons]
+        exact ih'
+
+/-- **The program-level model stands on the registry-level one**: `errcheck(item)` as the program model describes it
+(`react` over the sorted reaction table and the callback table) is exactly what `ErrorProfile.test(item)` does on the
+registry those tables come from. -/
+theorem check_refines_test (g : Registry) (trig : List Kind) :
+    step g (.test trig []) = (g, .ev (react ⟨toState g, callsOf g⟩ trig).2) := by
+  have hreg : ∀ k ∈ (rkinds g).mergeSort leStr, k ∈ rkinds g := by
+    intro k hk; rwa [List.mem_mergeSort] at hk
+  simp only [step, candidates, List.isEmpty_nil, if_true]
+  rw [testLoop_eq_find g trig _ hreg]
+  simp only [react, firstTriggered, kinds_toState]
+  cases hfd : ((rkinds g).mergeSort leStr).find? (fun k => trig.contains k) with
+  | none => rfl
+  | some k =>
+    have hk : k ∈ (rkinds g).mergeSort leStr := List.mem_of_find?_eq_some hfd
+    simp only [lookup_callsOf, toState, lookup_map_self _ _ k hk, Option.getD_some]
+
+theorem find_map_reaction (g : Registry) (f : Entry → String) (k : Kind) :
+    find (g.map (fun e => { e with reaction := f e })) k = (find g k).map (fun e => { e with reaction := f e }) := by
+  unfold find
+  induction g with
+  | nil => rfl
+  | cons x xs ih =>
+    simp only [List.map_cons, List.find?_cons]
+    by_cases hx : (x.kind == k) = true
+    · simp [hx]
+    · have : (x.kind == k) = false := by simpa using hx
+      simp only [this]; exact ih
+
+theorem validKw_toState (g : Registry) (kw : Kw) : validKw (toState g) kw = validKwR g kw := by
+  unfold validKw validKwR
+  congr 1
+  funext kr
+  have : (kinds (toState g)).contains kr.1 = (rkinds g).contains kr.1 := by
+    rw [kinds_toState]
+    by_cases h : kr.1 ∈ rkinds g
+    · have h' : kr.1 ∈ (rkinds g).mergeSort leStr := List.mem_mergeSort.mpr h
+      simp [h, h']
+    · have h' : kr.1 ∉ (rkinds g).mergeSort leStr := fun hm => h (List.mem_mergeSort.mp hm)
+      simp [h, h']
+  rw [this]
+
+/-- `seterr(**kw)` as the program model describes it is the registry's `state = kw`: refused together, and an accepted
+call leaves the reaction table of the updated registry -/
+theorem setState_refines_seterr (g : Registry) (kw : Kw) (hkw : KwWF kw) :
+    seterr (toState g) kw =
+      if (step g (.setState kw)).2 = .ok then some (toState (step g (.setState kw)).1) else none := by
+  rw [seterr_spec (toState g) kw hkw, validKw_toState]
+  simp only [step]
+  by_cases hv : validKwR g kw = true
+  · simp only [hv, if_true]
+    congr 1
+    simp only [toState, rkinds_map_reaction, expectedAfter, List.map_map]
+    apply List.map_congr_left
+    intro k hk
+    have hk' : k ∈ rkinds g := List.mem_mergeSort.mp hk
+    simp only [Function.comp, find_map_reaction]
+    cases hf : find g k with
+    | none => exact absurd hk' (find_none.mp hf)
+    | some e =>
+      have hek : e.kind = k := (find_some hf).2
+      simp only [Option.map_some, Option.getD_some, newReaction, hek]
+      cases kw.lookup "all" <;> rfl
+  · simp [hv]
+
+/-- reactions stay valid under every call -/
+def RegValid (g : Registry) : Prop := ∀ e ∈ g, e.reaction ∈ validReactions
+
+theorem newReaction_valid (g : Registry) (kw : Kw) (hv : validKwR g kw = true) (e : Entry)
+    (he : e.reaction ∈ validReactions) : newReaction kw e ∈ validReactions := by
+  have hall : ∀ kr ∈ kw, kr.2 ∈ validReactions := by
+    intro kr hkr
+    have := (List.all_eq_true.mp hv) kr hkr
+    simp only [Bool.and_eq_true] at this
+    simpa using this.1
+  have hl : ∀ (k : String) (r : String), kw.lookup k = some r → r ∈ validReactions := by
+    intro k r h
+    exact hall (k, r) (mem_of_lookup kw k r h)
+  unfold newReaction
+  cases h1 : kw.lookup "all" with
+  | some r => exact hl _ _ h1
+  | none =>
+    cases h2 : kw.lookup e.kind with
+    | some r => exact hl _ _ h2
+    | none => exact he
+
+theorem step_valid (g : Registry) (op : Op) (hv : RegValid g) : RegValid (step g op).1 := by
+  unfold RegValid at *
+  cases op with
+  | register k r cb =>
+    simp only [step]
+    split
+    · exact hv
+    · split
+      · exact hv
+      · rename_i _ hr
+        intro e he
+        rcases List.mem_append.mp he with h | h
+        · exact hv e h
+        · simp at h; subst h; simpa using hr
+  | unregister k =>
+    simp only [step]
+    split
+    · exact hv
+    · intro e he; exact hv e (List.mem_filter.mp he).1
+  | setState kw =>
+    simp only [step]
+    split
+    · rename_i hvk
+      intro e he
+      obtain ⟨e0, he0, rfl⟩ := List.mem_map.mp he
+      exact newReaction_valid g kw hvk e0 (hv e0 he0)
+    · exact hv
+  | setcall k cb =>
+    simp only [step]
+    split
+    · exact hv
+    · intro e he
+      obtain ⟨e0, he0, rfl⟩ := List.mem_map.mp he
+      split
+      · exact hv e0 he0
+      · exact hv e0 he0
+  | getcall k => simp only [step]; split <;> exact hv
+  | contains k => exact hv
+  | test trig args => exact hv
+
+theorem run_valid (g : Registry) (ops : List Op) (hv : RegValid g) : RegValid (run g ops).1 := by
+  induction ops generalizing g with
+  | nil => exact hv
+  | cons op ops ih => simp only [run]; exact ih _ (step_valid g op hv)
+
+/-- the reaction table of a registry meets the hypothesis `StateWF` the program-level theorems are stated under -/
+theorem toState_wf (g : Registry) (hw : RegWF g) (hv : RegValid g) (hall : "all" ∉ rkinds g) : StateWF (toState g) := by
+  refine ⟨?_, ?_, ?_⟩
+  · rw [kinds_toState]
+    exact (List.mergeSort_perm (rkinds g) leStr).nodup_iff.mpr hw
+  · rw [kinds_toState]
+    intro h; exact hall (List.mem_mergeSort.mp h)
+  · intro kr hkr
+    unfold toState at hkr
+    obtain ⟨k, hk, rfl⟩ := List.mem_map.mp hkr
+    have hk' : k ∈ rkinds g := List.mem_mergeSort.mp hk
+    cases hf : find g k with
+    | none => exact absurd hk' (find_none.mp hf)
+    | some e => simpa using hv e (find_some hf).1
+
+/-- the process-wide profile as err.py builds it satisfies `StateWF`: every program-level theorem (`model_holds`,
+`errstate_restores`, `reaction_honoured`, …) applies to it and — by `exec_wf` — to every profile a program reaches from it -/
+theorem module_state_wf : StateWF (toState moduleRegistry) := by
+  apply toState_wf
+  · exact reachable_wf moduleOps
+  · exact run_valid [] moduleOps (by intro e he; cases he)
+  · decide
+
+example : (run [] moduleOps).2 = [.ok, .ok, .ok, .ok, .ok, .ok, .ok] := by decide
 end Biom.C20.Reg
